@@ -12,7 +12,7 @@ pub fn run(tier: &str) -> Result<Report, String> {
     let mut rep = Report::new("C02", tier, "model_checking");
     std_assumptions(&mut rep);
     let nets = core_nets(3)?;
-    let ck = Checks { semantic: true, unit: false, entries: Entries::Ext2 };
+    let ck = Checks { semantic: true, unit: true, entries: Entries::Ext2 };
     let (m, fams, which): (usize, usize, Vec<&str>) = if tier == "quick" {
         (3, 6, vec!["imp1", "con2", "asy2", "unc2"])
     } else {
@@ -47,6 +47,9 @@ pub fn run(tier: &str) -> Result<Report, String> {
                 let odd = ctx.with_label_names(&["1", "false", "True"][..ctx.labels.wild.len().min(3)], &["0", "true", "V"][..ctx.labels.dom.len().min(3)]);
                 let small: Vec<_> = fs.iter().filter(|f| f.size() <= 4).cloned().collect();
                 sem::sweep(&mut rep, &odd, &small, ck);
+                // ... and non-ASCII label names
+                let uni = ctx.with_label_names(&["é", "細胞", "𝔸b"][..ctx.labels.wild.len().min(3)], &["é_2", "oblast_ř", "細"][..ctx.labels.dom.len().min(3)]);
+                sem::sweep(&mut rep, &uni, &small, ck);
             }
         }
         slices.push(json!({"network": b.name, "max_nodes": m, "alphabet": alpha.describe(), "formulae": fs.len(), "label_families": fams}));
@@ -98,7 +101,7 @@ pub fn run(tier: &str) -> Result<Report, String> {
         rep.set("wide_models", json!(big));
     }
     rep.set("slices", json!(slices));
-    rep.rule = "all closed extended formulae with at most max_nodes nodes that contain a wild-card or a domain, plus the extended template families (nested and repeated domains, the same inner domain under different outer domains, pattern and duplicate shapes inside domain scopes) and the pair family (every ordered pair of the collision alphabet joined by & / |, and nested as Q{x} in %d%: (A & @{x}: B)), x every label family (context-set assignment; the mixed family also under the label names 1, false, True / 0, true, V), through model_check_extended_formula(_dirty), compared with the explicit-state oracle on every state x valid colour; plus the operator sweep: every unary/binary operator and every quantifier form with/without domains on EVERY coloured set (and every pair of sets) of tiny networks; plus, on synthetic wide models with more than 2^53 state x colour pairs, the three README equivalences for 7 bodies x 7 domains (full, empty, all but one state, all but one (state, colour) pair, one state, ...) and the closed forms `!{x} in %d%: True` = d, `3{x} in %d%: @{x}: ~%d%` = empty, `V{x} in %d%: @{x}: %d%` = everything; distinct_nontrivial = distinct non-trivial (network, labels, verdict table)".into();
+    rep.rule = "all closed extended formulae with at most max_nodes nodes that contain a wild-card or a domain, plus the extended template families (nested and repeated domains, the same inner domain under different outer domains, pattern and duplicate shapes inside domain scopes) and the pair family (every ordered pair of the collision alphabet joined by & / |, and nested as Q{x} in %d%: (A & @{x}: B)), x every label family (context-set assignment; the mixed family also under the label names 1, false, True / 0, true, V and under non-ASCII label names), through model_check_extended_formula(_dirty), compared with the explicit-state oracle on every state x valid colour (and: raw results inside the unit set, independent of spare variables); plus the operator sweep: every unary/binary operator and every quantifier form with/without domains on EVERY coloured set (and every pair of sets) of tiny networks; plus, on synthetic wide models with more than 2^53 state x colour pairs, the three README equivalences for 7 bodies x 7 domains (full, empty, all but one state, all but one (state, colour) pair, one state, ...) and the closed forms `!{x} in %d%: True` = d, `3{x} in %d%: @{x}: ~%d%` = empty, `V{x} in %d%: @{x}: %d%` = everything; distinct_nontrivial = distinct non-trivial (network, labels, verdict table)".into();
     Ok(rep)
 }
 
